@@ -28,7 +28,7 @@ def frag(fn, new, sig, tail_spec, out, cut_from, cut_tail, obligation, pre="Seq:
 
 UNIT = Unit(
     name="U-LETLOW",
-    properties=["C09"],
+    properties=["C09", "C04"],
     rules=[("strip", "anf::"), ("strip", "goast::")],
     describe="go::compile, the ALet arms of compile_aexpr / compile_aexpr_assign / compile_aexpr_effect (fragments): whatever is done with the "
              "BODY of a let (returned, stored, evaluated for effect), the let-bound VALUE is evaluated in value position, once, before the "
